@@ -33,10 +33,17 @@ def gen_table_case(rng):
             else:
                 r.append(rng.choice(POOL))
         rows.append(r)
+    if rng.random() < 0.5:
+        # rows that differ only in letter case on the columns some rule uses (a reader must not fold them)
+        rows.append([str(n + 1), 'Abc', 'same', rng.choice(POOL)])
+        rows.append([str(n + 2), 'abc', 'same', rng.choice(POOL)])
+        rows.append([str(n + 3), 'ABC', 'same', rng.choice(POOL)])
     poms = [{'preds': [tm('const', EX + 'p/c%d' % j)], 'objs': [{'m': tm('ref', 'c%d' % j), 'lang': None, 'dt': None, 'joins': []}], 'graphs': []} for j in (1, 2, 3)]
     poms.append({'preds': [tm('const', EX + 'p/t')], 'objs': [{'m': tm('templ', EX + 'o/{c1}/{c3}'), 'lang': None, 'dt': None, 'joins': []}], 'graphs': []})
     return {'cfg': {'nquads': False, 'mode': 'NO'}, 'sources': [{'key': 'S0', 'kind': 'csv', 'cols': ['id', 'c1', 'c2', 'c3'], 'rows': rows}],
-            'doc': [{'id': EX + 'tm/T', 'src': 'S0', 'nonasserted': False, 'subj': tm('templ', EX + 'r/{id}'), 'sjoins': [], 'classes': [], 'sgraphs': [], 'poms': poms}]}
+            'doc': [{'id': EX + 'tm/T', 'src': 'S0', 'nonasserted': False, 'subj': tm('templ', EX + 'r/{id}'), 'sjoins': [], 'classes': [], 'sgraphs': [], 'poms': poms},
+                    {'id': EX + 'tm/U', 'src': 'S0', 'nonasserted': False, 'subj': tm('templ', EX + 's/{c1}'), 'sjoins': [], 'classes': [], 'sgraphs': [],
+                     'poms': [{'preds': [tm('const', EX + 'p/u')], 'objs': [{'m': tm('ref', 'c2'), 'lang': None, 'dt': None, 'joins': []}], 'graphs': []}]}]}
 
 
 def xml_safe(case):
@@ -79,6 +86,8 @@ def run(ctx, res):
         for k in KINDS[1:]:
             c = copy.deepcopy(t)
             c['sources'][0]['kind'] = k
+            if k in ('sqltable', 'sqlquery') and ctx.rng.random() < 0.5:
+                c['sources'][0]['types'] = ['TEXT'] + ['TEXT COLLATE NOCASE'] * 3      # the collation of a column is not part of its values
             variants.append(c); meta.append((t, r0['impl'], k, False))
         for k in ('csv', 'json', 'parquet'):
             c = copy.deepcopy(t)
